@@ -209,6 +209,8 @@ def t_call(fname: str, args: Sequence[Term]) -> Term:
         return t_pow(args[0], Term.const(Fraction(1, 2)))
     if fname in ('pow', 'power') and len(args) == 2:
         return t_pow(args[0], args[1])
+    if fname == 'square' and len(args) == 1:
+        return t_pow(args[0], Term.const(2))
     if fname == 'log10' and len(args) == 1:
         a = args[0]
         s = a.single()
@@ -245,7 +247,7 @@ def t_call(fname: str, args: Sequence[Term]) -> Term:
 
 CANON_FUNCS = {'np.log10': 'log10', 'math.log10': 'log10', 'numpy.log10': 'log10', 'log10': 'log10',
                'np.sqrt': 'sqrt', 'math.sqrt': 'sqrt', 'numpy.sqrt': 'sqrt', 'sqrt': 'sqrt',
-               'pow': 'pow', 'np.power': 'power', 'math.pow': 'pow', 'np.log2': 'log2', 'math.log2': 'log2',
+               'pow': 'pow', 'np.power': 'power', 'np.square': 'square', 'numpy.square': 'square', 'math.pow': 'pow', 'np.log2': 'log2', 'math.log2': 'log2',
                'np.abs': 'abs', 'abs': 'abs', 'np.minimum': 'minimum', 'np.maximum': 'maximum', 'min': 'minimum',
                'np.sin': 'sin', 'math.sin': 'sin', 'np.cos': 'cos', 'np.exp': 'exp', 'math.exp': 'exp',
                'np.sum': 'sum', 'np.mean': 'mean', 'math.erfc': 'erfc', 'erfc': 'erfc', 'special.erfc': 'erfc',
@@ -718,7 +720,8 @@ def block_env(model: Optional[Model], fn: FuncInfo, stmts: List[ast.stmt], env: 
             if isinstance(s, ast.Expr) and isinstance(s.value, ast.Call):
                 outs = [k.value for k in s.value.keywords if k.arg == 'out']
                 if outs and isinstance(outs[0], ast.Name):
-                    env.vars[outs[0].id] = from_ast(s.value, env)
+                    plain = ast.Call(func=s.value.func, args=s.value.args, keywords=[k for k in s.value.keywords if k.arg != 'out'])
+                    env.vars[outs[0].id] = from_ast(ast.copy_location(plain, s.value), env)
                 continue
         except Unknown:
             for x in ast.walk(s):
